@@ -2751,6 +2751,11 @@ def groupby_reduce(
     has_dask = is_duck_dask_array(array) or is_duck_dask_array(by_)
     has_cubed = is_duck_cubed_array(array) or is_duck_cubed_array(by_)
 
+    if _is_arg_reduction(func) and has_dask and nax != 1:
+        raise NotImplementedError(
+            "For dask arrays: arg-reductions are only supported along a single axis. Please reshape appropriately."
+        )
+
     is_first_last = _is_first_last_reduction(func)
     if is_first_last:
         if has_dask and nax != 1:
